@@ -1,6 +1,7 @@
 //! One module per property.
 use crate::engine::PropertyMeta;
 
+pub mod status_common;
 pub mod c01;
 pub mod c02;
 pub mod c03;
@@ -13,12 +14,15 @@ pub mod c09;
 pub mod c10;
 pub mod c11;
 pub mod c12;
+pub mod c13;
 pub mod c14;
+pub mod c15;
+pub mod c16;
 pub mod c17;
 pub mod c18;
 pub mod c19;
 pub mod c20;
 
 pub fn all() -> Vec<PropertyMeta> {
-    vec![c01::meta(), c02::meta(), c03::meta(), c04::meta(), c05::meta(), c06::meta(), c07::meta(), c08::meta(), c09::meta(), c10::meta(), c11::meta(), c12::meta(), c14::meta(), c17::meta(), c18::meta(), c19::meta(), c20::meta()]
+    vec![c01::meta(), c02::meta(), c03::meta(), c04::meta(), c05::meta(), c06::meta(), c07::meta(), c08::meta(), c09::meta(), c10::meta(), c11::meta(), c12::meta(), c13::meta(), c14::meta(), c15::meta(), c16::meta(), c17::meta(), c18::meta(), c19::meta(), c20::meta()]
 }
